@@ -266,8 +266,10 @@ def tryHex : Bytes → Option Bytes
 
 def strOfBytes (b : Bytes) : String := String.ofList (b.map (fun c => Char.ofNat c.toNat))
 
-/-- `GetOpCode(name)` (debugger/script.cpp): table lookups come from the generated table -/
-def getOpCode (name : Bytes) : Nat :=
+/-- `ParseOpCode(name, opcode_out)` (debugger/script.cpp:24): the opcode a name denotes — an optional `OP_` in front,
+    then the escape `xNN` (any byte NN, two hex digits) or a name of the table (generated from the real function);
+    `none` = the function returns false ("not an opcode") -/
+def parseOpCode (name : Bytes) : Option Nat :=
   let name := match name with
     | 79 :: 80 :: 95 :: r => r           -- "OP_"
     | _ => name
@@ -277,11 +279,15 @@ def getOpCode (name : Bytes) : Nat :=
       | _, _ => none
     | _ => none
   match viaX with
-  | some v => v
+  | some v => some v
   | none =>
     match Gen.opCodeByName.find? (fun p => p.1 == strOfBytes name && !p.1.startsWith "OP_") with
-    | some p => p.2
-    | none => 0xff
+    | some p => some p.2
+    | none => none
+
+/-- `GetOpCode(name)` (debugger/script.cpp:185): `ParseOpCode` with OP_INVALIDOPCODE (0xff) for "not an opcode" — it cannot
+    tell `OP_xff` from a string that names no opcode, which is why no caller that needs the difference uses it -/
+def getOpCode (name : Bytes) : Nat := (parseOpCode name).getD 0xff
 
 /-- `script << (int64_t)n` -/
 def pushInt64 (n : Int) : Bytes :=
@@ -299,8 +305,9 @@ def evalToken (v : Bytes) : Option Bytes :=
       match (if v.length % 2 == 0 then tryHex v else none) with
       | some d => some (pushData d)
       | none =>
-        let opc := getOpCode v
-        if opc != 0xff then some [UInt8.ofNat opc] else none
+        match parseOpCode v with            -- `if (ParseOpCode(v, opc)) { script << opc; continue; }` (instance.cpp:336)
+        | some opc => some [UInt8.ofNat opc]
+        | none => none
 
 def evalScriptOf : List Bytes → Option Bytes
   | [] => some []
